@@ -1,4 +1,5 @@
 import PdeVerif.Model.Controller
+import PdeVerif.Model.StepMaps
 import PdeVerif.Lemmas.Basic
 import PdeVerif.Lemmas.Controller
 /-
@@ -38,8 +39,14 @@ theorem state_is_iterate (c : Cfg K S σ) (u0 : S) (trs : List (Tracker K S σ))
   rw [finalHandle_u, finalHandle_steps]
   exact (loop_acc c u0 fuel _ (acc_init c u0 trs)).2
 
-/-- **initial_state_untouched**: `run` works on a copy; the caller's object keeps its value. -/
-theorem initial_state_untouched (c : Cfg K S σ) (u0 : S) (trs : List (Tracker K S σ)) (fuel : Nat) :
+/-- **initial_state_untouched_partial**: in the model `run` works on a copy (`work := u0`), so the
+caller's value is returned unchanged - true by construction (`rfl`).
+PARTIAL: the full clause "the caller's initial state *object* is left unmodified" is about mutation
+and aliasing of Python objects (`state = initial_state.copy()` in `Controller.run`, in-place
+stepping of `state.data`); the value-semantics model cannot express a missing copy, so this
+theorem says nothing about it.  The clause is checked on every real run by the monitor only
+(every cell, real and imaginary part, dtype, label, ghost cells; no shared memory with the result). -/
+theorem initial_state_untouched_partial (c : Cfg K S σ) (u0 : S) (trs : List (Tracker K S σ)) (fuel : Nat) :
     (runFuel c u0 trs fuel).initial = u0 := rfl
 
 /-! ### C07: step count -/
@@ -314,6 +321,42 @@ theorem observation_independent_of_reachedEnd (c : Cfg K S σ) (hdt : 0 < c.dt) 
   · rw [lattice_invariant, lattice_invariant, s1, s2]
   · rw [state_is_iterate, state_is_iterate, s1, s2]
 
+/-! ### solvers with their own persistent state
+
+The state type `S` of the model is arbitrary, so it may contain whatever the stepper keeps between
+two of its calls.  The driver instantiates `S` with `StepMaps.SolverState K` = cell value +
+Adams-Bashforth's previous state (+ a raised `ConvergenceError`), and `step` with the update
+formulas of the five fixed-step solvers.  The corollaries below spell out what
+`observation_independent` / `state_is_iterate` then say: the *whole* solver state, including the
+part no tracker ever sees, is independent of the observers.  (What the model takes for granted -
+that the real stepper keeps this state in one place that survives an interrupt, instead of
+re-creating it per call - is what the correspondence and the monitors check with the
+state-dependent equations `u' = a*u`, `u' = a*u + t`.) -/
+
+/-- **solver_state_survives_interrupts**: any two sets of read-only trackers leave every fixed-step
+solver (Euler, Runge-Kutta, implicit Euler, Crank-Nicolson, Adams-Bashforth), applied to any
+right-hand side `f`, in the same solver state: same cell value, same Adams-Bashforth previous
+state, same convergence outcome. -/
+theorem solver_state_survives_interrupts (sch : StepMaps.Scheme) (f : StepMaps.Rate K)
+    (p : StepMaps.Params K) (dt tStart tEnd eps : K) (nxt : σ → K → σ × Option K)
+    (hdt : 0 < dt) (he0 : 0 ≤ eps) (he1 : eps < 1 / 2) (u0 : K)
+    (trs trs' : List (Tracker K (StepMaps.SolverState K) σ))
+    (h : ∀ tr ∈ trs, tr.ReadOnly) (h' : ∀ tr ∈ trs', tr.ReadOnly) :
+    let c : Cfg K (StepMaps.SolverState K) σ :=
+      { dt := dt, tStart := tStart, tEnd := tEnd, eps := eps, step := StepMaps.stepOf sch f p dt, nxt := nxt }
+    let s0 := StepMaps.initState sch f dt tStart u0
+    (run c s0 trs).state = (run c s0 trs').state ∧ (run c s0 trs).steps = (run c s0 trs').steps := by
+  intro c s0
+  obtain ⟨h1, _, h3⟩ := observation_independent c hdt he0 he1 s0 trs trs' h h'
+  exact ⟨h3, h1⟩
+
+/-- the observed run equals the run nobody observes (empty tracker list) -/
+theorem observed_run_eq_unobserved (c : Cfg K S σ) (hdt : 0 < c.dt) (he0 : 0 ≤ c.eps) (he1 : c.eps < 1 / 2)
+    (u0 : S) (trs : List (Tracker K S σ)) (h : ∀ tr ∈ trs, tr.ReadOnly) :
+    (run c u0 trs).steps = (run c u0 []).steps ∧ (run c u0 trs).tFinal = (run c u0 []).tFinal ∧
+      (run c u0 trs).state = (run c u0 []).state :=
+  observation_independent c hdt he0 he1 u0 trs [] h (by simp)
+
 /-! ### robustness of the step count to rounding of the quotient -/
 
 /-- **round_stable**: a computed quotient within 1/2 of the integer `N` rounds to `N` -/
@@ -362,6 +405,24 @@ example : ∀ tr ∈ exTrackers, tr.ReadOnly := by
   intro tr h
   simp only [exTrackers, List.mem_cons, List.not_mem_nil, or_false] at h
   rcases h with rfl | rfl <;> intro n t u <;> rfl
+
+/-- Adams-Bashforth on `u' = -u/2`, dt = 1/4, range [0, 1]: observed at interval 3/10 or not at
+all, the solver ends in the same state - cell value and previous state (kernel-evaluated) -/
+def exAB2 : Cfg Rat (StepMaps.SolverState Rat) (Sched Rat) :=
+  { dt := 1 / 4, tStart := 0, tEnd := 1, eps := 1 / 1000000,
+    step := StepMaps.stepOf .ab2 (StepMaps.rateLin (-1 / 2)) { cells := 1, maxiter := 100, maxerr2 := 1 / 100000000 } (1 / 4),
+    nxt := Sched.next }
+
+def exAB2Trackers : List (Tracker Rat (StepMaps.SolverState Rat) (Sched Rat)) :=
+  [ (TrackerSpec.init { kind := .callback, sched := .const (3 / 10) none, stopAt := fun _ _ _ => none } 0) ]
+
+example :
+    (run exAB2 (StepMaps.initState .ab2 (StepMaps.rateLin (-1 / 2)) (1 / 4) 0 1) exAB2Trackers).state =
+      some (318949 / 524288, 22569 / 32768) ∧
+    (run exAB2 (StepMaps.initState .ab2 (StepMaps.rateLin (-1 / 2)) (1 / 4) 0 1) []).state =
+      some (318949 / 524288, 22569 / 32768) ∧
+    (run exAB2 (StepMaps.initState .ab2 (StepMaps.rateLin (-1 / 2)) (1 / 4) 0 1) exAB2Trackers).trace.length = 4 := by
+  decide +kernel
 
 end
 end PdeVerif.Controller
